@@ -445,6 +445,30 @@ def search(ctx):
                 for f in attribute(cfg, f'results differ in a fresh interpreter (PYTHONHASHSEED={hs}, global draws before the sim): {bad[:4]}', channel='fresh-interpreter/hash-seed'):
                     ctx.fail(f['signature'], f['what'], dict(kind='subprocess', cfg=cfg))
                 break
+    # per-network betas given as a dict: the order in which the networks transmit must not depend on the hash seed
+    for k in range(ctx.budget(1, 4)):
+        cfg = dictbeta_cfg(ctx.rng)
+        try:
+            a = digest(run_ref(cfg))
+        except Exception as e:
+            ctx.count('oracle_exceptions'); ctx.notes['last_oracle_exception'] = f'{type(e).__name__}: {e}'; continue
+        for hs in (1, 2, 3, 4):
+            b = run_subprocess(cfg, 'run', hashseed=hs); ctx.count('subprocess_runs')
+            if b is None: ctx.count('subprocess_failed'); continue
+            bad = sorted(k2 for k2 in set(a) | set(b) if a.get(k2) != b.get(k2))
+            if bad:
+                for f in attribute(cfg, f'dict beta over three networks: results differ in a fresh interpreter (PYTHONHASHSEED={hs}): {bad[:4]}', channel='fresh-interpreter/hash-seed'):
+                    ctx.fail(f['signature'], f['what'], dict(kind='subprocess', cfg=cfg, hashseeds=[1, 2, 3, 4]))
+                break
+    # distribution objects the user created before the simulation (strict=False), SciPy- and NumPy-sampled families
+    for fam in (sorted(USER_DISTS) if (ctx.thorough or ctx.broken) else ctx.rng.sample(sorted(USER_DISTS), 3)):
+        cfg = userdist_cfg(ctx.rng, fam)
+        try:
+            r = oracle_user_dist(cfg, ctx.rng.choice([1, 5, 17]), ctx.rng.randint(1, 50))
+        except Exception as e:
+            ctx.count('oracle_exceptions'); ctx.notes['last_oracle_exception'] = f'{type(e).__name__}: {e}'; continue
+        ctx.count('user_dist_runs')
+        if r: ctx.fail(*r)
     # changing the seed changes every distribution's stream: its seed, and what is actually drawn from it
     for k in range(ctx.budget(3, 20)):
         cfg = impl.gen_sim_config(ctx.rng, small=True)
@@ -461,6 +485,48 @@ def search(ctx):
 
 
 RANDOM_NETS = ('static', 'random', 'erdosrenyi', 'disk', 'mf', 'msm', 'embedding')
+
+
+USER_DISTS = dict(weibull=dict(c=2.0, scale=8.0), gamma=dict(a=2.0, scale=4.0), histogram=dict(values=[1.0, 3.0, 2.0], bins=[2.0, 5.0, 9.0, 14.0]),
+                  lognorm_ex=dict(mean=6.0, std=2.0), normal=dict(loc=8.0, scale=1.5), expon=dict(scale=6.0))
+
+
+def userdist_cfg(rng, fam=None):
+    """ a disease whose duration is a distribution object the user created (and may have drawn from) before the sim """
+    cfg = impl.gen_sim_config(rng, small=True, diseases=['sir'], networks=['random'], demographics=[], allow_global_readers=False)
+    fam = fam or rng.choice(sorted(USER_DISTS))
+    cfg['diseases'][0].update(init_prev=0.6, p_death=0, dur_inf=dict(dist=fam, pars=USER_DISTS[fam], preview=0))
+    return cfg
+
+
+def oracle_user_dist(cfg, k, seed_step):
+    """ (a) draws taken from the user's distribution object before the simulation is built are part of the process history,
+            not of the configuration: the results must not depend on them;
+        (b) changing rand_seed changes that distribution's stream too (the durations drawn at initialisation) """
+    import copy
+    fam = cfg['diseases'][0]['dur_inf']['dist']
+    ref = run_ref(cfg)
+    c2 = copy.deepcopy(cfg); c2['diseases'][0]['dur_inf']['preview'] = k
+    d = snap.diff(ref, run_ref(c2))
+    if d:
+        return dict(oracle='nondeterminism', channel='draws-from-user-dist-before-sim', family=fam), f'same configuration and seed, {k} values drawn from the user\'s ss.{fam}(strict=False) before the simulation was built: {d}', dict(kind='userdist', cfg=cfg, k=k, seed_step=seed_step)
+    c3 = copy.deepcopy(cfg); c3['rand_seed'] = cfg['rand_seed'] + seed_step
+    a = make_sim(cfg); b = make_sim(c3)
+    da, db = a.diseases[0], b.diseases[0]
+    ia = np.asarray(da.infected.uids); ib = np.asarray(db.infected.uids)
+    both = np.intersect1d(ia, ib)
+    if len(both) >= 10:
+        ra = np.asarray(da.ti_recovered.raw)[both]; rb = np.asarray(db.ti_recovered.raw)[both]
+        if np.array_equal(ra, rb):
+            return dict(oracle='seed-change', structure='user-dist:' + fam), f"changing rand_seed ({cfg['rand_seed']} -> {c3['rand_seed']}) left all {len(both)} infection durations drawn from the user's ss.{fam}(strict=False) identical", dict(kind='userdist', cfg=cfg, k=k, seed_step=seed_step)
+    return None
+
+
+def dictbeta_cfg(rng):
+    """ per-network betas given as a dict, three networks with edges """
+    cfg = impl.gen_sim_config(rng, small=True, diseases=['sis'], networks=['random', 'mf', 'static'], demographics=[], allow_global_readers=False)
+    cfg['diseases'][0]['beta'] = dict(random=rng.choice([0.05, 0.2]), mf=rng.choice([0.1, 0.4]), static=rng.choice([0.05, 0.3]))
+    return cfg
 
 
 def oracle_seed_change(cfg, cfg2):
@@ -488,7 +554,9 @@ def replay(ctx, data):
         return oracle_diff(data['cfg'], data['hist']) is not None
     if k == 'subprocess':
         a = digest(run_ref(data['cfg']))
-        return any(b is not None and a != b for b in (run_subprocess(data['cfg'], 'run', hashseed=hs) for hs in (1, 2)))
+        return any(b is not None and a != b for b in (run_subprocess(data['cfg'], 'run', hashseed=hs) for hs in data.get('hashseeds', (1, 2))))
+    if k == 'userdist':
+        return oracle_user_dist(data['cfg'], data['k'], data['seed_step']) is not None
     if k == 'seedchange':
         return oracle_seed_change(data['cfg'], data['cfg2']) is not None
     if k == 'reinit-seed-zero':
